@@ -416,6 +416,9 @@ func (g *dmGen) script() *dmScenario {
 	if g.chance(1, 4) {
 		g.genEntitlementFamily()
 	}
+	if g.chance(1, 5) {
+		g.genStructAttachment()
+	}
 	ret := g.valueType(1)
 	if ret.k == dmKFun && g.chance(3, 4) {
 		ret = dmTInt
@@ -432,6 +435,9 @@ func (g *dmGen) script() *dmScenario {
 	}
 	if g.entFamily != nil && g.chance(4, 5) {
 		g.entPhase(b, s)
+	}
+	if g.sAtt != nil {
+		g.structAttachmentPhase(b, s)
 	}
 	g.returnStmt(b, s, 2)
 	b.close()
